@@ -186,18 +186,24 @@ def c13_b(ctx: Ctx):
     walk = common.stmts_containing_call_to(ctx, sj, quals=(SJW,))
     if not walk:
         return [ctx.inc(R, sj, sj.node, "sync_jobs does not call _sync_job_workspaces")]
+    # the list handed to the file walk as `exclude=` (by role, whatever the local is called)
+    exnames = set()
+    for st, call in walk:
+        ex0 = kwarg(call, "exclude") or (call.args[3] if len(call.args) > 3 else None)
+        if isinstance(ex0, ast.Name):
+            exnames.add(ex0.id)
     sp_app, doc_app = set(), set()
     for n in cfg.stmt_nodes():
         added = []
         for sub in _own(n.ast):
             for c in walk_no_nested(sub):
                 if isinstance(c, ast.Call) and isinstance(c.func, ast.Attribute) and c.func.attr in ("append", "extend", "add", "insert") \
-                        and canon(c.func.value) == "exclude" and c.args:
+                        and canon(c.func.value) in exnames and c.args:
                     added.append(canon(c.args[-1]))
         a0 = n.ast
-        if isinstance(a0, ast.AugAssign) and canon(a0.target) == "exclude":
+        if isinstance(a0, ast.AugAssign) and canon(a0.target) in exnames:
             added.append(canon(a0.value))
-        if isinstance(a0, ast.Assign) and any(canon(t) == "exclude" for t in a0.targets) and "exclude" in names_in(a0.value):
+        if isinstance(a0, ast.Assign) and any(canon(t) in exnames for t in a0.targets) and (exnames & names_in(a0.value)):
             added.append(canon(a0.value))
         for a in added:
             if "FN_STATE_POINT" in a:
@@ -206,8 +212,10 @@ def c13_b(ctx: Ctx):
                 doc_app.add(n.id)
     for st, call in walk:
         ex = kwarg(call, "exclude") or (call.args[3] if len(call.args) > 3 else None)
-        if ex is None or canon(ex) != "exclude":
-            out.append(ctx.viol(R, sj, call, "the completed exclude list is not what is passed to the file walk"))
+        if ex is None:
+            out.append(ctx.viol(R, sj, call, "no exclude list is passed to the file walk"))
+        elif not isinstance(ex, ast.Name):
+            out.append(ctx.inc(R, sj, call, f"exclude list passed to the file walk is {canon(ex)[:40]}, not a local list"))
         for nid in cfg.node_ids_for(st):
             paths, trunc = cfg.paths_to(nid, kinds="n")
             bad_sp = bad_doc = None
